@@ -11,7 +11,9 @@ def run(ctx):
     out_k = os.path.join(ctx.scratch, "c01kdf.ndjson")
     if ctx.tier == "quick":
         hjobs = [("h3", dict(WriteLens=S([0, 1, 55, 56, 63, 64, 65, 128, 191]), WriteLens2=S([1, 64]),
-                             OneShotLens=S([0, 1, 55, 56, 63, 64, 65, 119, 120, 128, 129, 257]), MaxOps=3))]
+                             OneShotLens=S([0, 1, 55, 56, 63, 64, 65, 119, 120, 128, 129, 257]), MaxOps=3)),
+                 # longer histories on a small alphabet: Sum before an import / reset / write on the same object, imports after imports
+                 ("h5small", dict(WriteLens=S([1, 64]), WriteLens2=S([1]), OneShotLens=S([]), MaxOps=5))]
         zl = list(range(0, 71)) + [124, 125, 126, 127]
         kl = [1, 32, 33, 96, 97, 128, 129, 255, 256, 257, 300]
         zshards = 4
@@ -19,6 +21,7 @@ def run(ctx):
         hjobs = [("h4", dict(WriteLens=S([0, 1, 55, 56, 63, 64, 65, 128, 191]), WriteLens2=S([1, 64]),
                              OneShotLens=S(list(range(0, 130)) + [255, 256, 257, 1023, 1024, 1025]), MaxOps=4)),
                  ("h3mid", dict(WriteLens=S([0, 1, 8, 55, 56, 57, 63, 64, 65, 72, 119, 120, 127, 128, 129, 191, 192]), WriteLens2=S([1, 63]), OneShotLens=S([]), MaxOps=3)),
+                 ("h6small", dict(WriteLens=S([1, 64]), WriteLens2=S([1]), OneShotLens=S([]), MaxOps=6)),
                  ("h2all", dict(WriteLens=S(range(0, 201)), WriteLens2=S([1, 63]), OneShotLens=S([]), MaxOps=2))]
         zl = list(range(0, 201))
         kl = sorted(set(sum([[32 * k - 1, 32 * k, 32 * k + 1] for k in range(1, 18)], [])))
